@@ -214,6 +214,16 @@ func (r *Reader) NextFrame() (hdr ws.Header, err error) {
 	for _, x := range r.Extensions {
 		hdr, err = x.UnsetBits(hdr)
 		if err != nil {
+			if !hdr.OpCode.IsControl() {
+				// The frame is a part of the message even if refused by an
+				// extension: keep track of where the message ends for
+				// Discard().
+				if hdr.Fin {
+					r.State = r.State.Clear(ws.StateFragmented)
+				} else {
+					r.State = r.State.Set(ws.StateFragmented)
+				}
+			}
 			return hdr, err
 		}
 	}
